@@ -201,27 +201,85 @@ def kani_env(cfgs):
 
 def run_kani_jobs(ctx, harnesses):
     """harnesses: {name: spec}. Returns {name: result}, edit logs per variant."""
+    sel_all = harnesses
     by_variant = {}
     for h, spec in harnesses.items():
         by_variant.setdefault(spec.get("variant", "base"), {})[h] = spec
     results, edits, crates = {}, {}, {}
     jobs = []
+    gjobs = []
     for variant, hs in by_variant.items():
         vdir = os.path.join(ctx.work, variant)
         os.makedirs(vdir, exist_ok=True)
         vs = registry.VARIANTS[variant]
         mods = sorted({s["module"] for s in hs.values() if s.get("module")} | {m for s in hs.values() for m in s.get("extra_modules", [])})
         mods = sorted(set(mods) | set(vs.get("modules", [])))
-        # modules that other modules depend on
-        extra = {}
-        for gen in sorted({s["generator"] for s in hs.values() if s.get("generator")}):
-            extra.update(registry.GENERATORS[gen](extract.REPO))
-        log_, cfgs = extract.extract(vdir, mods, macos=vs.get("macos", False), big_arena=vs.get("big_arena", False), contracts=registry.contracts_for(hs), extra_files=extra)
-        edits[variant] = log_
+        gens = sorted({s["generator"] for s in hs.values() if s.get("generator")})
+
+        def do_extract(skip=()):
+            extra = {}
+            for gen in gens:
+                extra.update(registry.GENERATORS[gen](extract.REPO, skip) if skip else registry.GENERATORS[gen](extract.REPO))
+            return extract.extract(vdir, mods, macos=vs.get("macos", False), big_arena=vs.get("big_arena", False), contracts=registry.contracts_for(hs), extra_files=extra, extra_cfgs=vs.get("cfgs", []))
+
+        log_, cfgs = do_extract()
         crate = os.path.join(vdir, "crate")
+        skip_arms = set()
+        for pk in sorted({s["precheck"] for s in hs.values() if s.get("precheck")}):
+            t0 = time.time()
+            pr = registry.PRECHECKS[pk](crate, kani_env(cfgs))
+            r = dict(harness="precheck:" + pk, status="pass", obligations=pr["obligations"], failures=pr["failures"], undecided=pr["undecided"], covers={}, solver_s=0.0, variant=variant,
+                     wall_s=round(time.time() - t0, 1), cmd="cargo check --offline --lib (rustc as the checker of the generated instantiations)", n_checks=len(pr["obligations"]))
+            r["status"] = "violation" if pr["failures"] else ("undecided" if pr["undecided"] else "pass")
+            results["precheck:" + pk] = r
+            log("  [rustc] %-43s %-10s %5.1fs  obligations=%d" % ("precheck:" + pk, r["status"], r["wall_s"], len(r["obligations"])))
+            skip_arms |= pr.get("skip", set())
+        if skip_arms:
+            log_, cfgs = do_extract(tuple(sorted(skip_arms)))
+        edits[variant] = log_
         crates[variant] = (crate, cfgs)
+        groups = {}
         for h, spec in hs.items():
-            jobs.append((variant, h, spec))
+            if spec.get("arm") in skip_arms:
+                continue
+            if spec.get("group"):
+                groups.setdefault(spec["group"], []).append((h, spec))
+            else:
+                jobs.append((variant, h, spec))
+        for gname, members in groups.items():
+            nchunks = max(1, min(ctx.jobs, (len(members) + 5) // 6))
+            for ci in range(nchunks):
+                chunk = members[ci::nchunks]
+                if chunk:
+                    gjobs.append((variant, "%s.%d" % (gname, ci), chunk))
+
+    def one_group(job):
+        variant, gname, chunk = job
+        crate, cfgs = crates[variant]
+        td = os.path.join(ctx.work, variant, "td", gname)
+        cmd = ["cargo", "kani"] + KANI_FLAGS + ["--exact", "--target-dir", td]
+        for h, spec in chunk:
+            cmd += ["--harness", fq_name(h, spec)]
+        rc, out, wall = run(cmd, cwd=crate, env=kani_env(cfgs), timeout=1800 if ctx.tier == "quick" else 7200)
+        segs = re.split(r"(?m)^Checking harness ", out)
+        outl = []
+        for h, spec in chunk:
+            fq = fq_name(h, spec)
+            seg = next((x for x in segs[1:] if x.startswith(fq + "...")), None)
+            if seg is None:
+                r = dict(harness=h, status="undecided", obligations={}, failures=[], undecided=["harness did not build or run: " + "\n".join(l for l in out.strip().split("\n")[-12:] if not l.startswith("warning"))], covers={}, solver_s=0.0)
+            else:
+                r = classify(h, spec, seg, 0 if "VERIFICATION:-" in seg else rc)
+                if r["status"] in ("violation", "undecided"):
+                    i = seg.rfind("SUMMARY:")
+                    r["raw_tail"] = seg[i:][:3000] if i >= 0 else seg[-2000:]
+            r["wall_s"] = round(wall / max(1, len(chunk)), 1)
+            r["variant"] = variant
+            r["cmd"] = "cargo kani %s --exact --harness %s" % (" ".join(KANI_FLAGS), fq)
+            outl.append((h, r))
+        if not ctx.keep and not any(r["status"] == "violation" for _h, r in outl):
+            shutil.rmtree(td, ignore_errors=True)
+        return outl
 
     def one(job):
         variant, h, spec = job
@@ -242,9 +300,19 @@ def run_kani_jobs(ctx, harnesses):
         return h, r
 
     with cf.ThreadPoolExecutor(max_workers=ctx.jobs) as ex:
-        for h, r in ex.map(one, jobs):
-            results[h] = r
-            log("  [kani] %-44s %-10s %5.1fs  obligations=%d" % (h, r["status"], r["wall_s"], len(r["obligations"])))
+        futs = [ex.submit(one, j) for j in jobs] + [ex.submit(one_group, j) for j in gjobs]
+        for fu in cf.as_completed(futs):
+            rr = fu.result()
+            for h, r in ([rr] if isinstance(rr, tuple) else rr):
+                results[h] = r
+                if r["status"] != "pass" or not (sel_all.get(h) or {}).get("group"):
+                    log("  [kani] %-44s %-10s %5.1fs  obligations=%d" % (h, r["status"], r["wall_s"], len(r["obligations"])))
+    ng = sum(1 for h in results if (sel_all.get(h) or {}).get("group") and results[h]["status"] == "pass")
+    if ng:
+        log("  [kani] %d grouped harnesses passed" % ng)
+    for v, gname, chunk in gjobs:
+        for h, spec in chunk:
+            jobs.append((v, h, spec))
     # counterexamples: sequential (the in-place playback edits the proof module of the scratch crate)
     for variant, h, spec in jobs:
         r = results[h]
@@ -275,30 +343,24 @@ def run_verus_job(ctx, name, spec):
     with open(path, "w") as f:
         f.write(text)
     cmd = ["verus", path, "--output-json", "--time", "--multiple-errors", "20"] + spec.get("verus_args", [])
-    rc, out, wall = run(cmd, cwd=vdir, timeout=spec.get("timeout", 600))
-    r["wall_s"] = round(wall, 1)
+    t0 = time.time()
+    try:
+        pr = subprocess.run(cmd, cwd=vdir, stdout=subprocess.PIPE, stderr=subprocess.PIPE, text=True, errors="replace", timeout=spec.get("timeout", 600))
+        jtxt, out = pr.stdout, pr.stderr
+    except subprocess.TimeoutExpired:
+        r["status"] = "undecided"
+        r["undecided"].append("verus timeout")
+        return r, elog
+    r["wall_s"] = round(time.time() - t0, 1)
     r["cmd"] = " ".join(cmd)
     js = None
-    m = re.search(r"\{\s*\"verification-results\".*", out, re.S)
     try:
-        # the JSON object is the last top-level object printed on stdout
-        start = out.index("{\n")
-        js = json.loads(out[out.index("{", out.find('"verification-results"') - 20 if '"verification-results"' in out else 0):]) if False else None
+        js = json.loads(jtxt[jtxt.index("{"):])
     except Exception:  # noqa: BLE001
         js = None
     if js is None:
-        # robust: find the outermost JSON object by scanning from the first line that is exactly "{"
-        lines = out.split("\n")
-        for i, l in enumerate(lines):
-            if l.strip() == "{":
-                try:
-                    js = json.loads("\n".join(lines[i:]))
-                    break
-                except Exception:  # noqa: BLE001
-                    continue
-    if js is None:
         r["status"] = "undecided"
-        r["undecided"].append("verus produced no JSON: " + "\n".join(out.strip().split("\n")[-20:]))
+        r["undecided"].append("verus produced no JSON: " + "\n".join((out + jtxt).strip().split("\n")[-20:]))
         return r, elog
     vr = js.get("verification-results", {})
     verified, errors = vr.get("verified", 0), vr.get("errors", 0)
@@ -325,12 +387,13 @@ def run_verus_job(ctx, name, spec):
                 lab = "verus." + name
                 try:
                     ln = int(loc.split(":")[-2])
-                    srcline = text.split("\n")[ln - 1]
-                    mm = re.search(r"OBL:([\w.\-]+)", "\n".join(text.split("\n")[max(0, ln - 3): ln + 1]))
-                    if mm:
-                        lab = mm.group(1)
-                    else:
-                        lab = lab + ":" + srcline.strip()[:60]
+                    tl = text.split("\n")
+                    # the label is on the failing clause's own line, or on the nearest line above it
+                    for up in range(ln - 1, max(-1, ln - 60), -1):
+                        mm = re.search(r"OBL:([\w.\-]+)", tl[up])
+                        if mm:
+                            lab = mm.group(1)
+                            break
                 except Exception:  # noqa: BLE001
                     pass
                 r["failures"].append(dict(obligation=lab, desc=msg + " at " + loc, loc=loc, kind="obligation"))
@@ -340,7 +403,7 @@ def run_verus_job(ctx, name, spec):
     exp = spec.get("expect_verified")
     if exp is not None and not r["failures"] and verified < exp:
         r["undecided"].append("verus verified %d items, expected >= %d" % (verified, exp))
-    for oid in spec.get("obligations", []):
+    for oid in spec.get("obligations", []) or sorted(set(re.findall(r"OBL:([\w.\-]+)", text))):
         r["obligations"][oid] = "FAILURE" if any(f["obligation"] == oid for f in r["failures"]) else ("SUCCESS" if not r["failures"] and not r["undecided"] else "UNDETERMINED")
     for f in r["failures"]:
         r["obligations"][f["obligation"]] = "FAILURE"
